@@ -107,6 +107,17 @@ def compare_graphs(orig, back, recipe, path="root", strict_arrays=True, strict_t
     if not same_type_dict(fresh.input_type, back.input_type) or not same_type_dict(fresh.output_type, back.output_type):
         return (f"{path}: types {back.input_type} -> {back.output_type} differ from those of a fresh construction "
                 f"{fresh.input_type} -> {fresh.output_type}")
+    if strict_types:
+        # identical Python/numpy value types: the shape annotations too (container, dtype)
+        for nm in ("input_type", "output_type"):
+            a, b = getattr(orig, nm), getattr(back, nm)
+            if isinstance(a, dict) and isinstance(b, dict):
+                for k in a:
+                    if k in b and (type(a[k]) is not type(b[k]) or
+                                   (isinstance(a[k], np.ndarray) and a[k].dtype != b[k].dtype)):
+                        return (f"{path}.{nm}[{k!r}]: value type {type(b[k]).__name__}"
+                                f"{'/' + str(b[k].dtype) if isinstance(b[k], np.ndarray) else ''} != {type(a[k]).__name__}"
+                                f"{'/' + str(a[k].dtype) if isinstance(a[k], np.ndarray) else ''}")
     return None
 
 
